@@ -18,7 +18,7 @@ CHECKS.update({
  'C01': dict(
    text="Oracle-parametric Lean theorems (for ALL cost/distance/ordering/global-cost oracle values, ALL n>=2, ALL k, m, threshold lists): rdp_total_wf "
         "(fuel 2n never exhausted; strictly increasing 0..n-1; removed table = compute_removed_points; retained+dropped=n), rdp_steps_linear (<= 2n-3 "
-        "iterations), fixed_wf, grdp_total_wf, mp_wf, minpoint_wf (state invariant RInv of the shared refinement step). Tie to /repo: exact equality of "
+        "iterations), fixed_wf, grdp_total_wf, mp_wf, minpoint_wf (state invariant RInv of the shared refinement step); Props/C01S: step counters agreeing with the loops, linear step bounds for ALL five simplifiers (fixed = min(k-2,n-2); global <= n-2; min-points <= n-2; multi-threshold <= (|ts|+1)(n-2)), one retained index per step, removed table rows for the four stack-ordered simplifiers. Tie to /repo: exact equality of "
         "(reduced, removed) for 5 entry points x 2 distances x 5 metrics x 3 orders with oracle values taken from the package's own public primitives, "
         "plus while-iteration counts (sys.monitoring) against the linear bound.",
    note=TB + " Oracle values: IEEE rounding inside the primitives is not modelled - theorems quantify over all values. Domain: n>=2, t>0 (t<=1 for R2).",
